@@ -722,7 +722,15 @@ class ExpressionEvaluator:
         """Evaluate an AST node and return its value."""
         method = f'_eval_{type(node).__name__}'
         if hasattr(self, method):
-            return getattr(self, method)(node)
+            try:
+                return getattr(self, method)(node)
+            except ExpressionError:
+                raise
+            except Exception as e:
+                # Operands of the wrong type, an empty sequence, an exhausted generator,
+                # a bad regular expression...: the expression cannot be evaluated for this
+                # item. Callers skip such expressions by catching ExpressionError.
+                raise ExpressionError(f"Cannot evaluate expression: {type(e).__name__}: {e}")
         raise ExpressionError(f"Cannot evaluate node type: {type(node).__name__}")
 
     def _eval_Expression(self, node: ast.Expression) -> Any:
@@ -896,7 +904,15 @@ class TransactionEvaluator:
         """Evaluate an AST node and return its value."""
         method = f'_eval_{type(node).__name__}'
         if hasattr(self, method):
-            return getattr(self, method)(node)
+            try:
+                return getattr(self, method)(node)
+            except ExpressionError:
+                raise
+            except Exception as e:
+                # Operands of the wrong type, an empty sequence, an exhausted generator,
+                # a bad regular expression...: the expression cannot be evaluated for this
+                # item. Callers skip such expressions by catching ExpressionError.
+                raise ExpressionError(f"Cannot evaluate expression: {type(e).__name__}: {e}")
         raise ExpressionError(f"Cannot evaluate node type: {type(node).__name__}")
 
     def _eval_Expression(self, node: ast.Expression) -> Any:
